@@ -9,7 +9,7 @@ from common import Machinery, Verdict, seed
 from pool import run_chunks
 
 FIT_INV = ["InBounds", "FixedHeld", "FreeFromMinimiser", "NoSuccessNoReturn", "RefusedOnlyOutside", "Emit"]
-TIERS = {"quick": dict(tier=1, emitmod=300, backends=[("numpy", "64b"), ("pytorch", "64b"), ("jax", "64b")], closed_frac=0.5),
+TIERS = {"quick": dict(tier=1, emitmod=300, backends=[("numpy", "64b"), ("pytorch", "64b"), ("jax", "64b"), ("tensorflow", "64b")], closed_frac=0.5),
          "thorough": dict(tier=2, emitmod=30, backends=[("numpy", "64b"), ("pytorch", "64b"), ("jax", "64b"), ("tensorflow", "64b")], closed_frac=1.0)}
 
 
@@ -61,8 +61,10 @@ def run(prop, tier):
     traces = []
     for be, prec in t["backends"]:
         nproc = 16 if be in ("numpy", "pytorch") else 8
-        pl = plines if be == "numpy" else plines[:: 4]
+        pl = plines if be == "numpy" else plines[:: (4 if be != "tensorflow" or tier == "thorough" else 12)]
         cl = clines if be in ("numpy", "pytorch") else clines[:: (8 if tier == "quick" else 4)]
+        if be == "tensorflow" and tier == "quick":
+            cl = cl[:4]
         for fn, lines in (("replay_protocol", pl), ("replay_closed", cl)):
             chunks = [lines[i::nproc] for i in range(nproc)]
             for out in run_chunks("fit_replay", fn, [c for c in chunks if c], backend=be, precision=prec, procs=nproc,
